@@ -65,7 +65,7 @@ from vlib import deppair as dp
 from vlib import udpair
 from vlib import vsched
 from vlib import ref_llcp as ref
-from vlib.engine import Leg, Violation, derive_seed, unexpected
+from vlib.engine import Leg, Violation, derive_seed, unexpected, twin_env
 
 PROPERTY = "C19"
 LEVEL = "exploration"
@@ -1036,3 +1036,10 @@ LEGS = [
              "particular every PDU and every AGF PDU <= the receiver's MIU; "
              "non-trivial = a CONNECT or CC PDU travelled inside an AGF PDU."),
 ]
+
+# the same searches with every nfc logger enabled down to the lowest level
+# (code that only runs, or only evaluates its arguments, when logging is on)
+_byl = dict((lg.name, lg) for lg in LEGS)
+LEGS += [twin_env(_byl[n], "log", {"VERIF_LOG": "debug"}, quick=q, thorough=t,
+                  shards_quick=2)
+         for n, q, t in [('random', 100, 1000)] if n in _byl]
